@@ -101,6 +101,15 @@ def parse_all(repo):
     # InternalFloat constants (INFINITY is recognised and skipped: not a decimal literal)
     if not re.search(r"pub\s+struct\s+InternalFloat\s*\(\s*OrderedFloat\s*<\s*f64\s*>\s*\)\s*;", fl.text):
         raise TranslateError("%s: InternalFloat is no longer a newtype over OrderedFloat<f64>" % fl.path)
+    # InternalFloat must use the derived (componentwise) arithmetic and ordering of OrderedFloat<f64>
+    fdm = fl.one(r"#\[derive\(([^\]]*)\)\]\s*pub\s+struct\s+InternalFloat\b", "derive list of InternalFloat")
+    fder = {d.strip() for d in fdm.group(1).split(",") if d.strip()}
+    for need in ("Add", "Sub", "Mul", "PartialOrd", "PartialEq", "Ord", "Eq"):
+        if need not in fder:
+            fl.err(fdm.start(), "InternalFloat no longer derives %s" % need)
+    for tr in ("PartialOrd", "PartialEq", "Ord", "Add", "Sub", "Mul"):
+        if re.search(r"impl\b[^{;]*\b%s\b[^{;]*\bfor\s+(InternalFloat|Cost)\b" % tr, fl.text + co.text):
+            raise TranslateError("%s / %s: hand-written impl of %s for InternalFloat or Cost (the model assumes the derived one)" % (fl.path, co.path, tr))
     consts = list(re.finditer(r"pub\s+const\s+(\w+)\s*:\s*InternalFloat\s*=\s*([^;]*);", fl.text))
     for m in consts:
         name, rhs = m.group(1), m.group(2).strip()
@@ -205,8 +214,8 @@ def write_if_changed(path, content):
 
 
 def generate(repo, gen_dir):
-    dg, per = digest(repo)
     p = parse_all(repo)      # raises TranslateError (file:line) on anything unrecognised
+    dg, per = digest(repo)
     changed = write_if_changed(os.path.join(gen_dir, "CostConsts.v"), render(p))
     return {"ok": True, "msg": "CostConsts.v: MIN_COST = %d * 10^%d, strictly-positive clamp %s -> %s, non-negative clamp %s -> %s%s"
             % (p["cost"]["MIN_COST"][1][0], p["cost"]["MIN_COST"][1][1], p["clamps"]["ESP"][0], p["clamps"]["ESP"][1],
